@@ -13,6 +13,7 @@ class AdaptLife(pipeline.Module):
     driver = "adaptlife"
     invariants = "TypeOK ListSound"
     gen_workers = 2
+    timing_labels = ("X02-step-blocked",)
     assumptions = [
         "a registration is held where the runtime itself controls it: inside its synchronization callback, before and "
         "after handing out the state; the hook points sync.exclusive / sync.activated / sync.finish tell which plugin is where",
